@@ -11,6 +11,7 @@ import (
 	"fmt"
 	"go/token"
 	"go/types"
+	"strings"
 
 	"golang.org/x/tools/go/ssa"
 )
@@ -268,4 +269,156 @@ func lowerBoundEdges(fn *ssa.Function, v ssa.Value) []edge {
 		}
 	}
 	return out
+}
+
+// ---- C17-k: an index decoded from the stream is checked against the slice it indexes ----
+
+// decodedCells: local variables (Allocs / captured cells) whose address is handed to
+// a pkg/encoding/objline Read* function: they hold a number decoded from the stream.
+func decodedCells(fn *ssa.Function) map[*ssa.Alloc]bool {
+	out := map[*ssa.Alloc]bool{}
+	eachCall(fn, func(c ssa.CallInstruction) {
+		f := calleeFunc(c)
+		if f == nil || f.Pkg() == nil || !strings.HasSuffix(f.Pkg().Path(), "/pkg/encoding/objline") || !strings.HasPrefix(f.Name(), "ReadUint") {
+			return
+		}
+		for _, a := range c.Common().Args {
+			if al := cellOf(a); al != nil {
+				out[al] = true
+			} else if al, ok := a.(*ssa.Alloc); ok {
+				out[al] = true
+			}
+		}
+	})
+	return out
+}
+
+// sameSliceVar: two slice values denote the same variable (same SSA value, or loads of
+// the same local / captured cell).
+func sameSliceVar(a, b ssa.Value) bool {
+	a, b = stripConv(a), stripConv(b)
+	if a == b {
+		return true
+	}
+	ua, ok1 := a.(*ssa.UnOp)
+	ub, ok2 := b.(*ssa.UnOp)
+	if ok1 && ok2 && ua.Op == token.MUL && ub.Op == token.MUL {
+		if ua.X == ub.X {
+			return true
+		}
+		ca, cb := cellOf(ua.X), cellOf(ub.X)
+		if ca != nil && ca == cb {
+			return true
+		}
+	}
+	return false
+}
+
+func init() {
+	register(&Rule{
+		ID: "C17-k", Template: "guard relation (index vs. the indexed slice)",
+		Doc: "An index read from the stream is checked against the very slice it indexes: in the hostile-reachable set, an index expression s[i] whose index derives from a number decoded with objline.ReadUint16/32 into a local variable is reachable only after a comparison between that number and a value derived from len(s) of the same slice variable, one outcome of which returns an error. A bound taken from a different collection that merely has the same length today (the list of all known profile fields vs. the list in this object's header) lets a crafted object index out of range.",
+		Min: 1,
+		Run: func(p *Program, r *RuleResult) error {
+			H, _, err := hostileReachable(p)
+			if err != nil {
+				return err
+			}
+			r.Analysed = len(H)
+			total := 0
+			for _, fn := range sortedFuncs(H) {
+				cells := decodedCells(fn)
+				if len(cells) == 0 {
+					continue
+				}
+				fromCell := func(v ssa.Value) bool {
+					for x := range backward(v, nil) {
+						if u, ok := x.(*ssa.UnOp); ok && u.Op == token.MUL {
+							if al, ok := u.X.(*ssa.Alloc); ok && cells[al] {
+								return true
+							}
+							if al := cellOf(u.X); al != nil && cells[al] {
+								return true
+							}
+						}
+					}
+					return false
+				}
+				n := 0
+				for _, b := range fn.Blocks {
+					for _, in := range b.Instrs {
+						ia, ok := in.(*ssa.IndexAddr)
+						if !ok {
+							continue
+						}
+						if _, isSlice := ia.X.Type().Underlying().(*types.Slice); !isSlice {
+							continue
+						}
+						if _, isConst := constInt(ia.Index); isConst || !fromCell(ia.Index) {
+							continue
+						}
+						key := fmt.Sprintf("%s|index-by-decoded#%d", funcName(fn), n)
+						n++
+						total++
+						what := "an index decoded from the stream is compared with the length of the slice it indexes"
+						// guards: If comparing a cell-derived value with something derived from len(X)
+						var guardEdges []edge
+						wrong := ""
+						for _, b2 := range fn.Blocks {
+							if len(b2.Instrs) == 0 {
+								continue
+							}
+							ifi, ok := b2.Instrs[len(b2.Instrs)-1].(*ssa.If)
+							if !ok {
+								continue
+							}
+							bo, ok := ifi.Cond.(*ssa.BinOp)
+							if !ok || !isComparison(bo.Op) {
+								continue
+							}
+							for _, pair := range [][2]ssa.Value{{bo.X, bo.Y}, {bo.Y, bo.X}} {
+								if !fromCell(pair[0]) {
+									continue
+								}
+								if _, isConst := constInt(pair[1]); isConst {
+									continue
+								}
+								rel := false
+								other := ""
+								for x := range backward(pair[1], nil) {
+									if lc, ok := x.(*ssa.Call); ok && isBuiltin(lc, "len") && len(lc.Call.Args) == 1 {
+										if sameSliceVar(lc.Call.Args[0], ia.X) {
+											rel = true
+										} else {
+											other = lc.Call.Args[0].Name()
+										}
+									}
+								}
+								if rel && (leadsToErrorReturn(fn, b2.Succs[0]) || leadsToErrorReturn(fn, b2.Succs[1])) {
+									guardEdges = append(guardEdges, edge{b2, 0}, edge{b2, 1})
+								} else if other != "" {
+									wrong = "the only bound it is compared with is the length of a different collection"
+								}
+							}
+						}
+						if len(guardEdges) > 0 {
+							if _, reach := reachAfter(fn, nil, ia, mkCut(guardEdges), nil); !reach {
+								r.ok(key, p.Rel(ia.Pos()), what)
+								continue
+							}
+						}
+						why := "no comparison of the decoded number with len() of the indexed slice lies on every path to this index"
+						if wrong != "" {
+							why += " (" + wrong + ")"
+						}
+						r.bad(key, p.Rel(ia.Pos()), what, why)
+					}
+				}
+			}
+			if total == 0 {
+				r.missing("hostile-set|index-by-decoded", "no index by a decoded number found (TableProfile.ReadFrom's field table lookup is expected)")
+			}
+			return nil
+		},
+	})
 }
